@@ -963,6 +963,109 @@ func (c *Ctx) mapdRun() *simpleVerdict {
 		}
 		v.runs++
 	}
+	// "a tokenizer hands every character of a configured range, Latin or not, to the configured state": with nothing
+	// but one range configured - handed to the symbol state (every character is a one-character Symbol token) and to
+	// the word state with exactly the range as its word characters (every run is one Word token) - the ends of the
+	// range, their inner neighbours and a middle character stand at the first, an inner and the last position of the
+	// input and alone, the characters next to the range too (they have no state: Unknown tokens of one character);
+	// through every way of giving the tokenizer its input
+	type dispRange struct{ lo, hi rune }
+	dispRanges := []dispRange{{'a', 'z'}, {0xE0, 0xFF}, {0xFF, 0x100}, {0x80, 0x180}, {0x100, 0x17F}, {0x2000, 0x206F},
+		{0xFE70, 0xFEFF}, {0xFEFF, 0xFEFF}, {0xFE00, 0xFFFE}, {0xFFF0, 0xFFFE}}
+	const outside = '0' // in none of the ranges
+	for _, rg := range dispRanges {
+		for _, stName := range []string{"SymbolState", "WordState"} {
+			if v.bad != "" || v.undec != "" {
+				break
+			}
+			hd := c.newTkHarness("generic")
+			hd.setOptions(0)
+			if _, out := hd.call("ClearCharacterStates"); out.kind != "ok" {
+				v.undec = "ClearCharacterStates: " + out.why
+				break
+			}
+			if why := hd.setCharState(rg.lo, rg.hi, stName); why != "" {
+				v.undec = why
+				break
+			}
+			if stName == "WordState" {
+				if why := hd.stateCall("WordState", "SetWordChars", int64(0), int64(0xFFFE), false); why != "" {
+					v.undec = why
+					break
+				}
+				if why := hd.stateCall("WordState", "SetWordChars", int64(rg.lo), int64(rg.hi), true); why != "" {
+					v.undec = why
+					break
+				}
+			}
+			config := fmt.Sprintf("generic tokenizer without options, ClearCharacterStates(), SetCharacterState(%#x,%#x,%s())", rg.lo, rg.hi, stName)
+			if stName == "WordState" {
+				config += fmt.Sprintf(" whose word characters are exactly %#x-%#x", rg.lo, rg.hi)
+			}
+			in := func(ch rune) bool { return rg.lo <= ch && ch <= rg.hi }
+			var chars []rune
+			seenCh := map[rune]bool{}
+			for _, ch := range []rune{rg.lo, rg.hi, rg.lo + 1, rg.hi - 1, (rg.lo + rg.hi) / 2, rg.lo - 1, rg.hi + 1} {
+				if ch >= 1 && ch <= 0xFFFE && !seenCh[ch] && (in(ch) || ch == rg.lo-1 || ch == rg.hi+1) {
+					seenCh[ch] = true
+					chars = append(chars, ch)
+				}
+			}
+			var inputs []string
+			for _, ch := range chars {
+				x, o := string(ch), string(rune(outside))
+				inputs = append(inputs, x, x+o, o+x, o+x+o, x+o+x, x+x, x+string(rg.hi)+o, o+string(rg.lo)+x)
+			}
+			for _, input := range inputs {
+				// the model: runs of range characters (single ones for the symbol state), one token per other character
+				var want []string
+				rs := []rune(input)
+				for i := 0; i < len(rs); {
+					switch {
+					case !in(rs[i]):
+						want = append(want, fmt.Sprintf("Unknown(%q)", string(rs[i])))
+						i++
+					case stName == "SymbolState":
+						want = append(want, fmt.Sprintf("Symbol(%q)", string(rs[i])))
+						i++
+					default:
+						j := i
+						for j < len(rs) && in(rs[j]) {
+							j++
+						}
+						want = append(want, fmt.Sprintf("Word(%q)", string(rs[i:j])))
+						i = j
+					}
+				}
+				for _, entry := range tkListEntries {
+					_, r := hd.tokenizeVia(entry, input)
+					if r.kind == "opaque" {
+						if v.undec == "" {
+							v.undec = fmt.Sprintf("%s, %s on %q: %s", config, entry, input, r.why)
+						}
+						continue
+					}
+					v.runs++
+					if v.bad != "" {
+						continue
+					}
+					if r.kind != "ok" {
+						v.bad = fmt.Sprintf("%s, %s on %q panics: %s", config, entry, input, r.why)
+						continue
+					}
+					var got []string
+					for _, t := range r.toks {
+						if t.typ != "Eof" {
+							got = append(got, fmt.Sprintf("%s(%q)", t.typ, t.val))
+						}
+					}
+					if strings.Join(got, " ") != strings.Join(want, " ") {
+						v.bad = fmt.Sprintf("%s, %s on %q yields [%s]; every character of the configured range goes to the configured state and the others to none: [%s]", config, entry, input, strings.Join(got, " "), strings.Join(want, " "))
+					}
+				}
+			}
+		}
+	}
 	// the character classes of the whitespace and word states: a disabled range is really disabled
 	h3 := c.newTkHarness("generic")
 	h3.setOptions(0)
@@ -1011,7 +1114,7 @@ func (c *Ctx) mapdRun() *simpleVerdict {
 
 func init() {
 	register(&Rule{ID: "MAP.dispatchmodel", Floor: 1,
-		Doc: "the same list model through a tokenizer: ClearCharacterStates / SetCharacterState with ranges below, above and across U+0100 and states {word, symbol, none}, probed with GetCharacterState; a disabled non-Latin range yields Unknown tokens and a re-enabled one reaches its state",
+		Doc: "the same list model through a tokenizer: ClearCharacterStates / SetCharacterState with ranges below, above and across U+0100 and states {word, symbol, none}, probed with GetCharacterState; a disabled non-Latin range yields Unknown tokens and a re-enabled one reaches its state; with one range (Latin, spanning U+0100, above it, ending at U+FEFF and U+FFFE) handed to the symbol or the word state the characters at and next to its ends stand at the first, an inner and the last position of inputs given through TokenizeBuffer, TokenizeStream and SetReader",
 		Run: func(c *Ctx) []*Obligation {
 			return emitSimple(c, "MAP.dispatchmodel", "tokenizers.AbstractTokenizer#character-dispatch", c.Pos(c.MustFunc("tokenizers/generic", "", "NewGenericTokenizer").Pos()), c.mapdRun(), "dispatch agrees with the list model")
 		}})
